@@ -174,10 +174,12 @@ def signals(ctx, n):
     return out
 
 
-def oracle_envelope(x, mode, method, pad, parabolic, dtype=None):
+def oracle_envelope(x, mode, method, pad, parabolic, dtype=None, amp=1.0):
     from scipy import interpolate as interp
     from emd import sift
     x, _ = siftcore.as_dtype(x, dtype)       # integer counts / single precision handed to the implementation as they are
+    if amp != 1.0:
+        x = x * amp                          # 'all finite signals': extrema and envelopes do not depend on the unit of the signal
     N = len(x)
     opts = {'pad_width': pad, 'parabolic_extrema': parabolic}
     try:
@@ -199,7 +201,7 @@ def oracle_envelope(x, mode, method, pad, parabolic, dtype=None):
         ref = interp.splev(t, interp.splrep(locs, pks))
     else:
         ref = interp.PchipInterpolator(locs, pks)(t)
-    scale = max(1.0, np.abs(ref).max())
+    scale = amp * max(1.0, np.abs(ref).max() / amp)
     err = np.abs(env - ref).max()
     if err > 1e-9 * scale:
         fails.append(('interp_envelope', 'mode=%s method=%s pad=%d parabolic=%s: envelope differs from the interpolant through the '
@@ -278,30 +280,47 @@ def run(ctx):
         pc.append((y1 - ctx.rng.randint(1, 30), y1, y1 - ctx.rng.randint(1, 30), ctx.rng.randint(1, 500)))
     mo = ctx.model_outputs(IMPORTS, ['[%s]' % '; '.join(common.zlit(v) for v in c) for c in pc],
                            'fun c => run_parabolic (nth 0 c 0) (nth 1 c 0) (nth 2 c 0) (nth 3 c 0)', shard=400)
-    for c, m in zip(pc, mo):
-        t, yh = sift.compute_parabolic_extrema(np.array([[c[0] / 8], [c[1] / 8], [c[2] / 8]]), np.array([c[3]]))
-        ctx.count(('parabolic', c), True, 'parabolic')
+    for k, (c, m) in enumerate(zip(pc, mo)):
+        # the vertex does not depend on the unit of the signal: the same triplet times a power of two (exact in binary)
+        amp = [1.0, 1.0, 2.0 ** -52, 2.0 ** -70, 2.0 ** 40, 2.0 ** -100][k % 6]
+        t, yh = sift.compute_parabolic_extrema(np.array([[c[0] / 8], [c[1] / 8], [c[2] / 8]]) * amp, np.array([c[3]]))
+        yh = yh / amp
+        ctx.count(('parabolic', c, amp), True, 'parabolic' if amp == 1.0 else 'parabolic-scaled')
         ctx.tol_cmp += 1
         et, ey = Fraction(m[0], m[1]), Fraction(m[2], m[3])
         if abs(t[0] - float(et)) > 1e-9 * max(1, abs(float(et))) or abs(yh[0] - float(ey)) > 1e-9 * max(1, abs(float(ey))):
-            if not bad:
-                bad.append(('parabolic', dict(y=[v / 8 for v in c[:3]], loc=c[3]), [float(t[0]), float(yh[0])], [float(et), float(ey)]))
+            # the property itself, independent of the model: the refined magnitude is the vertex value of the parabola through the
+            # three samples, c - b^2/(4a) with a = (y0+y2)/2 - y1, b = (y2-y0)/2, c = y1
+            y0, y1, y2 = (Fraction(v, 8) for v in c[:3])
+            pa, pb = (y0 + y2) / 2 - y1, (y2 - y0) / 2
+            vy = y1 - pb * pb / (4 * pa)
+            inp = dict(y=[v / 8 for v in c[:3]], loc=c[3], amp=amp)
+            if abs(yh[0] - float(vy)) > 1e-9 * max(1, abs(float(vy))) and not any(q['site'] == 'compute_parabolic_extrema' for q in ctx.problems):
+                ctx.problem('impl-violation', 'compute_parabolic_extrema',
+                            'samples %s x %g around location %d: refined magnitude %.12g x %g is not the vertex value %.12g x %g of the parabola '
+                            'through them (refined location %.12g)' % (inp['y'], amp, c[3], float(yh[0]), amp, float(vy), amp, float(t[0])),
+                            input=dict(parabolic_triplet=inp), observed=[float(t[0]), float(yh[0])], expected=[float(et), float(ey)])
+            elif not bad:
+                bad.append(('parabolic', inp, [float(t[0]), float(yh[0])], [float(et), float(ey)]))
     # (4) envelopes on real signals
     nsig = 18 if ctx.quick() else 400
     for si, x in enumerate(signals(ctx, nsig)):
         dt = [None, None, 'int64', None, 'float32', None, None, 'int16'][si % 8]
         if dt:
             ctx.hist['dtype-' + dt] += 1
+        amp = 1.0 if dt else [1.0, 1.0, 2.0 ** -52, 1.0, 1e-17, 1e12, 1.0, 1e-30][(si // 8 + si) % 8]
+        if amp != 1.0:
+            ctx.hist['amplitude-%g' % amp] += 1
         for mode in ('upper', 'lower', 'combined'):
             for method in ('splrep', 'pchip', 'mono_pchip'):
                 pad = 1 + (si + len(mode) + len(method)) % 4
                 for parabolic in (False, True):
-                    fails, nt = oracle_envelope(x, mode, method, pad, parabolic, dtype=dt)
+                    fails, nt = oracle_envelope(x, mode, method, pad, parabolic, dtype=dt, amp=amp)
                     ctx.count(('env', si, mode, method, parabolic), nt, 'envelope-%s' % ('parabolic' if parabolic else 'plain'))
                     ctx.tol_cmp += 1
                     for site, detail in fails[:1]:
                         ctx.problem('impl-violation', site, detail,
-                                    input=dict(signal=x.tolist(), mode=mode, interp_method=method, pad_width=pad, parabolic_extrema=parabolic, dtype=dt),
+                                    input=dict(signal=x.tolist(), mode=mode, interp_method=method, pad_width=pad, parabolic_extrema=parabolic, dtype=dt, amp=amp),
                                     tags=dict(parabolic=parabolic))
     if bad and not any(p['kind'] == 'impl-violation' for p in ctx.problems):
         b = bad[0]
@@ -323,8 +342,17 @@ def run(ctx):
 
 def replay(rec):
     i = rec['input']
+    if 'parabolic_triplet' in i:
+        from emd import sift
+        q = i['parabolic_triplet']
+        y0, y1, y2 = (Fraction(v) for v in q['y'])
+        pa, pb = (y0 + y2) / 2 - y1, (y2 - y0) / 2
+        vy = float(y1 - pb * pb / (4 * pa))
+        t, yh = sift.compute_parabolic_extrema(np.array([[q['y'][0]], [q['y'][1]], [q['y'][2]]]) * q['amp'], np.array([q['loc']]))
+        print('refined', float(t[0]), float(yh[0] / q['amp']), 'vertex value', vy)
+        return abs(yh[0] / q['amp'] - vy) > 1e-9 * max(1, abs(vy))
     if 'interp_method' in i:
-        f, _ = oracle_envelope(np.array(i['signal']), i['mode'], i['interp_method'], i['pad_width'], i['parabolic_extrema'], dtype=i.get('dtype'))
+        f, _ = oracle_envelope(np.array(i['signal']), i['mode'], i['interp_method'], i['pad_width'], i['parabolic_extrema'], dtype=i.get('dtype'), amp=i.get('amp', 1.0))
     else:
         f = oracle_extrema(i['signal'])
     for x in f:
